@@ -17,6 +17,8 @@
 -/
 import Chrono.Proofs.TimestampL2
 import Chrono.Extracted.TsLits
+import Chrono.Props.GenDate
+import Chrono.Props.GenTime
 
 namespace Chrono.Props.C02
 open Chrono Chrono.M Chrono.Spec Chrono.Spec.Ts Chrono.Proofs Chrono.Proofs.Ts Chrono.Proofs.Ts2 Chrono.Extracted
@@ -993,6 +995,100 @@ example :
     instNs ⟨dateOfYo 1969 365, ⟨86399, 999000000⟩⟩ = (-1) * 1000000 ∧
     instNs ⟨dateOfYo 1969 365, ⟨86399, 999999000⟩⟩ = (-1) * 1000 ∧
     instNs ⟨dateOfYo 1969 365, ⟨86399, 999999999⟩⟩ = -1 := by
+  decide +kernel
+
+/-! ## generated code = specification (end-to-end compositions with Props/GenDate.lean, Props/GenTime.lean)
+
+`Gen.*` are the definitions tools/extractors/rust2lean.py regenerates from the Rust source on every run.
+None of the 14 top-level timestamp bodies is translated yet (audit2/C02.md gap 1); their callees are.  The
+two theorems below therefore speak about the TRANSLATED callees and accessors and leave exactly the glue of
+`from_timestamp` (the Euclidean split, `+ 719163`, the `i32` test) to the hand model. -/
+
+/-- the TRANSLATED date and time constructors, applied to the Euclidean split of any `i64` count whose
+day number fits `i32` (otherwise `from_timestamp` returns `None` before calling them): no panic; one of
+them yields `None` exactly when the instant is not representable / the nanosecond field invalid; and
+when both yield a value, the pair is (the packed word and the two fields of) the valid value exactly
+`secs` seconds from the epoch with nanosecond field `nsecs` — the specification's `IsAt` -/
+theorem gen_from_ts_callees (secs nsecs : Int) (hs : isI64 secs) (hn : isU32 nsecs)
+    (hd : -2147483648 ≤ secs / 86400 + 719163 ∧ secs / 86400 + 719163 ≤ 2147483647) :
+    ∃ od, Gen.naive_date.NaiveDate.from_num_days_from_ce_opt (secs / 86400 + 719163) = .ok od ∧
+      ((od = none ∨ Gen.naive_time.NaiveTime.from_num_seconds_from_midnight_opt (secs % 86400) nsecs = none)
+        ↔ ¬ tsOk secs nsecs) ∧
+      ∀ y t, od = some y →
+        Gen.naive_time.NaiveTime.from_num_seconds_from_midnight_opt (secs % 86400) nsecs = some t →
+        ∃ dt : NaiveDT, y = dt.date.yof ∧ t = Chrono.Proofs.GenTimeL.tG dt.time ∧ IsAt dt secs nsecs := by
+  obtain ⟨r, e1, e2, e3⟩ := from_timestamp_spec secs nsecs hs hn.1
+  have hE : UNIX_EPOCH_DAY = 719163 := rfl
+  have hmin : I32_MIN = -2147483648 := rfl
+  have hmax : I32_MAX = 2147483647 := rfl
+  rw [GenDate.gen_from_num_days_from_ce_opt_eq _ hd, GenTime.gen_from_num_seconds_from_midnight_opt_eq]
+  unfold NaiveDT.from_timestamp at e1
+  rw [hE, ckI64_ok (by omega) (by omega)] at e1
+  simp only [Res.bind] at e1
+  rw [if_neg (by omega)] at e1
+  cases hdate : Date.from_num_days_from_ce_opt (secs / 86400 + 719163) with
+  | panic => rw [hdate] at e1; cases e1
+  | ok od =>
+    rw [hdate] at e1
+    simp only [] at e1
+    refine ⟨od.map Date.yof, rfl, ?_, ?_⟩
+    · rw [← e2]
+      cases od with
+      | none =>
+        cases ht : Time.from_num_seconds_from_midnight_opt (secs % 86400) nsecs <;>
+          (rw [ht] at e1; injection e1 with e1; simp [← e1])
+      | some d =>
+        cases ht : Time.from_num_seconds_from_midnight_opt (secs % 86400) nsecs with
+        | none => rw [ht] at e1; injection e1 with e1; simp [← e1]
+        | some t => rw [ht] at e1; injection e1 with e1; simp [← e1]
+    · intro y t hy ht
+      cases od with
+      | none => cases hy
+      | some d =>
+        cases htt : Time.from_num_seconds_from_midnight_opt (secs % 86400) nsecs with
+        | none => rw [htt] at ht; cases ht
+        | some t' =>
+          rw [htt] at ht e1
+          injection e1 with e1
+          injection hy with hy
+          injection ht with ht
+          exact ⟨⟨d, t'⟩, hy.symm, ht.symm, e3 _ e1.symm⟩
+
+/-- the TRANSLATED accessors (`NaiveDate::year/month/day`, `NaiveTime::hour/minute/second/nanosecond`)
+read on the value `from_timestamp` builds: `month`/`day` do not panic and, with `year`, form a valid
+calendar date whose closed-form day number is the floor day `719163 + secs / 86400`; the clock fields
+are those of the second of day `secs % 86400`; the nanosecond field is `nsecs` (this is `from_ts_fields`
+with the model's accessors replaced by the generated code) -/
+theorem gen_from_ts_fields (secs nsecs : Int) (hs : isI64 secs) (hn : isU32 nsecs) (dt : NaiveDT)
+    (h : NaiveDT.from_timestamp secs nsecs = .ok (some dt)) :
+    ∃ m d : Nat, Gen.naive_date.NaiveDate.month dt.date.yof = .ok (m : Int) ∧
+      Gen.naive_date.NaiveDate.day dt.date.yof = .ok (d : Int) ∧
+      validYmd (Gen.naive_date.NaiveDate.year dt.date.yof) m d = true ∧
+      dayNum (Gen.naive_date.NaiveDate.year dt.date.yof) m d = 719163 + secs / 86400 ∧
+      Gen.naive_time.NaiveTime.Timelike.hour (Chrono.Proofs.GenTimeL.tG dt.time) = secs % 86400 / 3600 ∧
+      Gen.naive_time.NaiveTime.Timelike.minute (Chrono.Proofs.GenTimeL.tG dt.time) = secs % 3600 / 60 ∧
+      Gen.naive_time.NaiveTime.Timelike.second (Chrono.Proofs.GenTimeL.tG dt.time) = secs % 60 ∧
+      Gen.naive_time.NaiveTime.Timelike.nanosecond (Chrono.Proofs.GenTimeL.tG dt.time) = nsecs := by
+  obtain ⟨m, d, c1, c2, c3, c4, k1, k2, k3, k4⟩ := from_ts_fields secs nsecs hs hn dt h
+  refine ⟨m, d, ?_, ?_, ?_, ?_, ?_, ?_, ?_, ?_⟩
+  · rw [GenDate.gen_month_eq, c1]; rfl
+  · rw [GenDate.gen_day_eq, c2]; rfl
+  · rw [GenDate.gen_year_eq]; exact c3
+  · rw [GenDate.gen_year_eq]; exact c4
+  · rw [GenTime.gen_hour_eq]; exact k1
+  · rw [GenTime.gen_minute_eq]; exact k2
+  · rw [GenTime.gen_second_eq]; exact k3
+  · rw [(GenTime.gen_nanosecond_eq dt.time).1]; exact k4
+
+/-- non-vacuity: the generated callees on the split of −1 s with 999999999 ns, of the leap second
+1435708799 + 1.5·10⁹ ns, of the last second, and a refusal (leap field on :58) -/
+example :
+    Gen.naive_date.NaiveDate.from_num_days_from_ce_opt ((-1) / 86400 + 719163) = .ok (some (dateOfYo 1969 365).yof) ∧
+    Gen.naive_time.NaiveTime.from_num_seconds_from_midnight_opt ((-1) % 86400) 999999999 = some ⟨86399, 999999999⟩ ∧
+    Gen.naive_time.NaiveTime.from_num_seconds_from_midnight_opt (1435708799 % 86400) 1500000000 = some ⟨86399, 1500000000⟩ ∧
+    Gen.naive_time.NaiveTime.from_num_seconds_from_midnight_opt (1435708798 % 86400) 1000000000 = none ∧
+    Gen.naive_date.NaiveDate.from_num_days_from_ce_opt (TS_MAX / 86400 + 719163) = .ok (some Date.MAX.yof) ∧
+    Gen.naive_date.NaiveDate.from_num_days_from_ce_opt ((TS_MAX + 1) / 86400 + 719163) = .ok none := by
   decide +kernel
 
 end Chrono.Props.C02
